@@ -53,6 +53,13 @@ Theorem C12_spec_column_never_fails : forall c h t,
 Proof. exact c12_fails_nil. Qed.
 Print Assumptions C12_spec_column_never_fails.
 
+(* A lease file left behind by a run with other prefix lengths does not change the
+   configuration in force (configChanged as repaired by e01fd08): the handler then
+   behaves as [run c (init c)], to which the theorems above apply. *)
+Theorem C12_stale_file_config : forall c hb nb, loaded_cfg c hb nb = c.
+Proof. exact loaded_cfg_id. Qed.
+Print Assumptions C12_stale_file_config.
+
 (* Non-vacuity. *)
 Example C12_cfg_ok_example : cfg_ok wcfg.
 Proof. reflexivity. Qed.
